@@ -734,8 +734,11 @@ def encoder_walks_sorted_input(ctx: Ctx, rep: Report, rid: str = "R08.16") -> No
         return
     lp = loops[0]
     it = lp.iter
-    while isinstance(it, ast.Call) and src(it.func) in ("enumerate", "zip", "list", "iter") and it.args:
-        it = it.args[0]
+    while (isinstance(it, ast.Call) and src(it.func) in ("enumerate", "zip", "list", "iter", "pairwise", "itertools.pairwise", "islice", "itertools.islice") and it.args) or isinstance(it, ast.Subscript):
+        it = it.value if isinstance(it, ast.Subscript) else it.args[0]  # `items[1:]`, `zip(items, items[1:])`: the same list
+    if not (isinstance(it, ast.Name) or (isinstance(it, ast.Call) and src(it.func) == "sorted")):
+        rep.note(f"{rid} the neighbour loop of helpers.ports_to_string walks `{snippet(it, 30)}` - not a form this rule reads, not judged")
+        return
     ok = False
     what = snippet(it, 30)
     if isinstance(it, ast.Call) and src(it.func) == "sorted":
